@@ -32,6 +32,8 @@ var olvmRuntime = map[string]string{
 	"probe": "60003531600052602060" + "00a000",
 	// self-destructs to the address in calldata[0:32]
 	"suicide": "600035ff",
+	// slot0 := (slot0 == 0): every other call clears the slot and earns a storage refund
+	"toggle": "6000541560005500",
 }
 
 // initCode wraps runtime code (at most 32 bytes) into creation code returning it.
